@@ -66,7 +66,8 @@ def validate_table(ap):
 
 def literals_in(path, clsname, funcs):
     """string literals used in comparisons / membership tests / endswith / tuple heads, and the named
-    constant tables of membership tests (`in:NAME`), per function"""
+    constant tables of membership tests (`in:NAME`), class tests (`isa:Class`) and `x.attr is (not) None` guards
+    (`none:attr`), per function"""
     with open(path, encoding='utf-8') as f:
         tree = pyast.parse(f.read())
     out = []
@@ -76,9 +77,24 @@ def literals_in(path, clsname, funcs):
                 if isinstance(fn, pyast.FunctionDef) and fn.name in funcs:
                     found = []
                     for n in pyast.walk(fn):
+                        if isinstance(n, pyast.Call) and isinstance(n.func, pyast.Name) and n.func.id == 'isinstance' \
+                                and len(n.args) == 2:
+                            # class tests (`isinstance(node, ast.Return)`): guards of the mirrored control flow
+                            cls_arg = n.args[1]
+                            for c in (cls_arg.elts if isinstance(cls_arg, pyast.Tuple) else [cls_arg]):
+                                if isinstance(c, pyast.Attribute):
+                                    found.append('isa:' + c.attr)
+                        if isinstance(n, pyast.Compare) and len(n.ops) == 1 and isinstance(n.ops[0], (pyast.Is, pyast.IsNot)) \
+                                and isinstance(n.comparators[0], pyast.Constant) and n.comparators[0].value is None \
+                                and isinstance(n.left, pyast.Attribute):
+                            # `x.attr is None` / `is not None` guards
+                            found.append('none:' + n.left.attr)
                         if isinstance(n, pyast.Compare):
                             # membership tests against a named constant table (`x not in TRANSFER_OPTIONS`,
                             # `t not in ast.BASIC_TYPES`): the guard itself is part of the pinned shape
+                            if len(n.ops) == 1 and isinstance(n.ops[0], (pyast.In, pyast.NotIn)) \
+                                    and isinstance(n.left, pyast.Name) and n.left.id.upper() == n.left.id:
+                                found.append('has:' + n.left.id)     # `OPT_NOT_OPTIONAL in not_annotation`
                             for op, c in zip(n.ops, n.comparators):
                                 if isinstance(op, (pyast.In, pyast.NotIn)):
                                     nm = c.id if isinstance(c, pyast.Name) else (
@@ -127,7 +143,8 @@ def main():
                      ['_apply_transfer_annotation', '_apply_annotations_param_ret_common', '_is_pointer_type',
                       '_apply_annotations_array', '_apply_annotations_element_type',
                       '_apply_annotations_param_callback', '_apply_annotations_param_closure',
-                      '_pass3_callable_callbacks', '_pass3_callable_throws', '_check_instance_parameter',
+                      '_pass3_callable_callbacks', '_pass3_callable_throws', '_pass3_callable_references',
+                      '_resolve_toplevel', '_check_instance_parameter',
                       '_get_transfer_default_param', '_check_array_element_type'])
     gw = literals_in(os.path.join(REPO, 'giscanner', 'girwriter.py'), 'GIRWriter',
                      ['_write_parameter', '_write_return_type', '_write_type', '_write_generic'])
